@@ -213,6 +213,102 @@ func c11Run(r *Run) {
 	if n == 0 {
 		r.fail("no request entry point found in std/net/http")
 	}
+	c11ProgramFrames(r)
+}
+
+// c11ProgramFrames: where the VM evaluates a parsed program (a script file, a view template, an include),
+// the variable frame it runs in is made in that very call — the result of a call, or a frame the caller
+// handed in — never one read back from a field, a map or a cache: a remembered frame is shared by every
+// request that renders the same file at the same time.
+func c11ProgramFrames(r *Run) {
+	rp := r.pkg("runtime")
+	if rp == nil {
+		return
+	}
+	info := rp.TypesInfo
+	for _, fd := range funcDecls(rp) {
+		if fd.Body == nil {
+			continue
+		}
+		params := map[types.Object]bool{}
+		if fd.Type.Params != nil {
+			for _, f := range fd.Type.Params.List {
+				for _, nm := range f.Names {
+					params[info.Defs[nm]] = true
+				}
+			}
+		}
+		// every definition of a local: its right-hand sides
+		defs := map[types.Object][]ast.Expr{}
+		ast.Inspect(fd.Body, func(n ast.Node) bool {
+			as, ok := n.(*ast.AssignStmt)
+			if !ok {
+				return true
+			}
+			for i, l := range as.Lhs {
+				id, ok := l.(*ast.Ident)
+				if !ok || id.Name == "_" {
+					continue
+				}
+				o := info.Defs[id]
+				if o == nil {
+					o = info.Uses[id]
+				}
+				if o == nil {
+					continue
+				}
+				switch {
+				case len(as.Rhs) == len(as.Lhs):
+					defs[o] = append(defs[o], as.Rhs[i])
+				case len(as.Rhs) == 1:
+					defs[o] = append(defs[o], as.Rhs[0])
+				}
+			}
+			return true
+		})
+		k := 0
+		ast.Inspect(fd.Body, func(n ast.Node) bool {
+			c, ok := n.(*ast.CallExpr)
+			if !ok || len(c.Args) != 1 {
+				return true
+			}
+			se, ok := ast.Unparen(c.Fun).(*ast.SelectorExpr)
+			if !ok || se.Sel.Name != "GetValue" || !isNamed(info.TypeOf(se.X), modPath+"/node", "Program") {
+				return true
+			}
+			k++
+			key := funcKey(rp, fd) + "#program-frame"
+			var fresh func(e ast.Expr, depth int) (bool, string)
+			fresh = func(e ast.Expr, depth int) (bool, string) {
+				switch x := ast.Unparen(e).(type) {
+				case *ast.CallExpr:
+					return true, ""
+				case *ast.Ident:
+					o := info.Uses[x]
+					if params[o] {
+						return true, ""
+					}
+					ds := defs[o]
+					if len(ds) == 0 || depth > 3 {
+						return false, exprStr(e)
+					}
+					for _, d := range ds {
+						if ok, why := fresh(d, depth+1); !ok {
+							return false, why
+						}
+					}
+					return true, ""
+				}
+				return false, exprStr(e)
+			}
+			if ok, why := fresh(c.Args[0], 0); ok {
+				r.ok(key, c.Pos(), "the program is evaluated in a frame made in this call (or handed in by the caller)")
+			} else {
+				r.bad(key, c.Pos(), "the program is evaluated in a frame read from "+why+", not made for this evaluation: requests that evaluate the same file at the same time share its variables")
+			}
+			return true
+		})
+	}
 }
 
 // c11Node: no node type writes its own fields while it is evaluated (the AST is shared by every request).
